@@ -45,6 +45,21 @@ pub fn chance(w: &mut World, tag: u64, label: u64, permille: u32) -> bool {
     }
 }
 
+/// The forms in which a broker may send PUBREL: short (success implied), with a reason code
+/// (0x00 or 0x92, the two MQTT 5 allows), with an empty property block. None of them changes
+/// what the client owes: a PUBCOMP.
+fn pubrel_packet(w: &mut World, id: u16, key: u64) -> Packet {
+    if !chance(w, key, 0x7E1, 250) {
+        return Packet::Ack { typ: 6, id, reason: None, props: None };
+    }
+    w.fault("pubrel_long_form");
+    match pick(w, key, 0x7E2, 3) {
+        0 => Packet::Ack { typ: 6, id, reason: Some(0), props: None },
+        1 => Packet::Ack { typ: 6, id, reason: Some(0x92), props: None },
+        _ => Packet::Ack { typ: 6, id, reason: Some(0), props: Some(vec![]) },
+    }
+}
+
 fn send(w: &mut World, conn: usize, delay: u64, pkt: &Packet, meta: RxMeta) {
     let bytes = codec::encode(pkt);
     send_raw(w, conn, delay, bytes, meta);
@@ -538,6 +553,11 @@ fn connack_policy(w: &mut World, conn: usize, clean_start: bool, need_id: bool) 
             ska = Some([0u16, 1, 2, 3, 4, 5, 9, 10, 11, 30, 100, 65535][pick(w, t, 15, 12) as usize]);
         }
     }
+    if benign {
+        // a conformant broker chooses its Receive Maximum per connection, also one below the
+        // number of exchanges the resumed session still has under way
+        rm = w.final_small_rm;
+    }
     let assign = need_id || (small && pick(w, t, 16, 8) == 0);
     if let Some(v) = rm {
         props.push(Prop { id: 0x21, val: PVal::U16(v) });
@@ -667,7 +687,7 @@ fn broker_retransmit(w: &mut World, conn: usize, after: u64) {
             1 => {
                 let id = m.id.unwrap();
                 w.fault("broker_retransmit_pubrel");
-                let p = Packet::Ack { typ: 6, id, reason: None, props: None };
+                let p = pubrel_packet(w, id, 0xB700 + i as u64);
                 send(w, conn, after, &p, RxMeta::PubRel { id });
             }
             _ => {}
@@ -1193,7 +1213,7 @@ fn on_client_ack(w: &mut World, conn: usize, typ: u8, id: u16, reason: Option<u8
                     return;
                 }
                 let d = delay_us(w, 0xB000 + bi as u64, 1);
-                let p = Packet::Ack { typ: 6, id, reason: None, props: None };
+                let p = pubrel_packet(w, id, 0xB000 + bi as u64);
                 send(w, conn, d, &p, RxMeta::PubRel { id });
                 // occasionally the broker repeats the PUBREL
                 if chance(w, 0xB000 + bi as u64, 2, w.cfg.p_dup_inbound) {
@@ -1695,7 +1715,7 @@ pub fn broker_fault(w: &mut World, conn: usize) {
                 return;
             }
             w.fault("unknown_pubrel");
-            let p = Packet::Ack { typ: 6, id, reason: None, props: None };
+            let p = pubrel_packet(w, id, t ^ 0x7E0);
             send(w, conn, 0, &p, RxMeta::PubRel { id });
         }
         3 => {
